@@ -294,6 +294,34 @@ h("kd9_longest_match_any_chain_length", D + "/kd9_window.rs", "deflate::verif_ka
   functions=["deflate::longest_match::longest_match (chain walk, chain counter)"],
   bounds="concrete 1 KiB window and hash chain of three non-matching candidates; any max_chain_length / good_match / nice_match (what deflateTune can store)",
   assumptions=["unwind 1032 for the window-filling loop of the harness only"], unwindset=[("longest_match::longest_match_help", None, 6), ("kd9_window::kd9_longest_match_any_chain_length", None, 1030)])
+h("kd3_fizzle_matches_small", "zlib-rs/src/deflate/algorithm/medium/verif_kani.rs", "deflate::algorithm::medium::verif_kani", ["C01"], kernel="KD3", expect_s=120, timeout=1500, weight=2, mem_gb=16,
+  functions=["algorithm::medium::fizzle_matches"],
+  bounds="one call; 24 symbolic window bytes; current match 1..=6 bytes, next match 3..=6 bytes anywhere in the window (a real match: assumed bytewise), any max_dist covering it",
+  assumptions=["call-site facts of deflate_medium: next.strstart == current.strstart + current.match_length, 1 <= next.match_start < next.strstart, next fits in the window"])
+h("kd3_fizzle_matches_long_next", "zlib-rs/src/deflate/algorithm/medium/verif_kani.rs", "deflate::algorithm::medium::verif_kani", ["C01"], kernel="KD3", expect_s=120, timeout=1500, weight=2, mem_gb=16,
+  functions=["algorithm::medium::fizzle_matches"],
+  bounds="one call; 600 symbolic window bytes; current match 1..=5 bytes, next match 250..=258 bytes (not assumed to be a real match: only lengths and positions are asserted)",
+  assumptions=["call-site facts of deflate_medium as in kd3_fizzle_matches_small"])
+h("kd3_tail_fast", "zlib-rs/src/deflate/algorithm/verif_kani.rs", "deflate::algorithm::verif_kani", ["C11", "C01", "C07"], kernel="KD3", expect_s=120, timeout=1500, weight=2, mem_gb=16,
+  functions=["algorithm::fast::deflate_fast (the path taken when all input is consumed: lookahead == 0, avail_in == 0)"],
+  bounds="one call; w_size 512; any strstart in 1..=600, any open block length, 0..=2 symbols already tallied, every flush mode except NoFlush, output room left",
+  assumptions=["invariant: the open block is empty exactly when no symbol is tallied or deferred", "fill_window -> no-op asserting avail_in == 0", "flush_block_only -> model: the block takes every tallied symbol and block_start..strstart, symbol buffer emptied, block_start = strstart, avail_out stays > 0 (the real block writer is decided by KD4/KD5/KD1)"])
+h("kd3_tail_medium", "zlib-rs/src/deflate/algorithm/verif_kani.rs", "deflate::algorithm::verif_kani", ["C11", "C01", "C07"], kernel="KD3", expect_s=120, timeout=1500, weight=2, mem_gb=16,
+  functions=["algorithm::medium::deflate_medium (the path taken when all input is consumed: lookahead == 0, avail_in == 0)"],
+  bounds="one call; w_size 512; any strstart in 1..=600, any open block length, 0..=2 symbols already tallied, every flush mode except NoFlush, output room left",
+  assumptions=["invariant: the open block is empty exactly when no symbol is tallied or deferred", "fill_window -> no-op asserting avail_in == 0", "flush_block_only -> model: the block takes every tallied symbol and block_start..strstart, symbol buffer emptied, block_start = strstart, avail_out stays > 0 (the real block writer is decided by KD4/KD5/KD1)"])
+h("kd3_tail_slow", "zlib-rs/src/deflate/algorithm/verif_kani.rs", "deflate::algorithm::verif_kani", ["C11", "C01", "C07"], kernel="KD3", expect_s=120, timeout=1500, weight=2, mem_gb=16,
+  functions=["algorithm::slow::deflate_slow (the path taken when all input is consumed: lookahead == 0, avail_in == 0)"],
+  bounds="one call; w_size 512; any strstart in 1..=600, any open block length, 0..=2 symbols already tallied, with or without a deferred literal (match_available), every flush mode except NoFlush, output room left",
+  assumptions=["invariant: the open block is empty exactly when no symbol is tallied or deferred", "fill_window -> no-op asserting avail_in == 0", "flush_block_only -> model: the block takes every tallied symbol and block_start..strstart, symbol buffer emptied, block_start = strstart, avail_out stays > 0 (the real block writer is decided by KD4/KD5/KD1)"])
+h("kd3_tail_huff", "zlib-rs/src/deflate/algorithm/verif_kani.rs", "deflate::algorithm::verif_kani", ["C11", "C01", "C07"], kernel="KD3", expect_s=120, timeout=1500, weight=2, mem_gb=16,
+  functions=["algorithm::huff::deflate_huff (the path taken when all input is consumed: lookahead == 0, avail_in == 0)"],
+  bounds="one call; w_size 512; any strstart in 1..=600, any open block length, 0..=2 symbols already tallied, every flush mode except NoFlush, output room left",
+  assumptions=["invariant: the open block is empty exactly when no symbol is tallied or deferred", "fill_window -> no-op asserting avail_in == 0", "flush_block_only -> model: the block takes every tallied symbol and block_start..strstart, symbol buffer emptied, block_start = strstart, avail_out stays > 0 (the real block writer is decided by KD4/KD5/KD1)"])
+h("kd3_tail_rle", "zlib-rs/src/deflate/algorithm/verif_kani.rs", "deflate::algorithm::verif_kani", ["C11", "C01", "C07"], kernel="KD3", expect_s=120, timeout=1500, weight=2, mem_gb=16,
+  functions=["algorithm::rle::deflate_rle (the path taken when all input is consumed: lookahead == 0, avail_in == 0)"],
+  bounds="one call; w_size 512; any strstart in 1..=600, any open block length, 0..=2 symbols already tallied, every flush mode except NoFlush, output room left",
+  assumptions=["invariant: the open block is empty exactly when no symbol is tallied or deferred", "fill_window -> no-op asserting avail_in == 0", "flush_block_only -> model: the block takes every tallied symbol and block_start..strstart, symbol buffer emptied, block_start = strstart, avail_out stays > 0 (the real block writer is decided by KD4/KD5/KD1)"])
 h("kd9_slide_hash_chain", "zlib-rs/src/deflate/slide_hash/verif_kani.rs", "deflate::slide_hash::verif_kani", ["C01"], kernel="KD9", expect_s=60, timeout=900,
   functions=["slide_hash::slide_hash_chain", "generic_slide_hash_chain::<32>"], bounds="64 symbolic entries, any wsize")
 
@@ -640,7 +668,7 @@ for _n, _v in RSS_MEASURED.items():
         HARNESSES[_n]["mem_gb"] = _v + 6
 
 QUICK = {
-    "C01": ["kd9_fill_window_slide_keeps_deferred_match", "kd9_slide_hash_chain", "kd4_gen_codes_n5", "kd4_build_tree_bl_k3", "kd5_send_tree_n4", "kd8_quick_finish_n1", "kd8_quick_finish_n3", "kd2_static_encode_matches_rfc", "ki5d_fixed_tables_are_rfc",
+    "C01": ["kd3_fizzle_matches_long_next", "kd3_tail_medium", "kd9_fill_window_slide_keeps_deferred_match", "kd9_slide_hash_chain", "kd4_gen_codes_n5", "kd4_build_tree_bl_k3", "kd5_send_tree_n4", "kd8_quick_finish_n1", "kd8_quick_finish_n3", "kd2_static_encode_matches_rfc", "ki5d_fixed_tables_are_rfc",
             "kd1_emitters_one_step", "ki5c_stored", "kd10_reset_equals_fresh"],
     "C02": ["ki1_bitreader_refill_model", "ki2_copy_match_twin_small", "ki2_extend_from_window_twin", "ki3_window_extend_ring",
             "ki5b_extra", "ki5b_name_entry_length", "ki5b_comment_entry_length", "ki5b_name", "ki5c_stored", "ki5d_len_step", "ki6_fast_loop_room", "ki7_inflate_copyblock",
@@ -662,7 +690,7 @@ QUICK = {
             "kc9_crc_combine_len0_1_2", "kc9_multmodp_identity", "kc9_adler_len_0_1_2_3"],
     "C10": ["ki2_copy_match_twin_small", "ki2_extend_from_window_twin", "ki3_window_extend_ring", "kd10_reset_equals_fresh",
             "ki8_reset_equals_fresh"],
-    "C11": ["kd7_starved_flush_is_completed_by_the_next_call", "kd7_zlib_wrapper", "kd8_quick_sync_n3", "kd1_emitters_one_step"],
+    "C11": ["kd3_tail_slow", "kd3_tail_fast", "kd3_tail_huff", "kd7_starved_flush_is_completed_by_the_next_call", "kd7_zlib_wrapper", "kd8_quick_sync_n3", "kd1_emitters_one_step"],
     "C13": ["ki5a_head_w1_n2", "ki5a_head_w5_n2", "ki5a_dictid_n3", "ki5a_dictid_n4", "ki5a_dictid_n4_have", "ki5a_set_dictionary", "ki3_get_dictionary_order", "kd7_zlib_wrapper", "kd10_set_dictionary_protocol"],
     "C14": ["ki8_copy_refuses_a_borrowed_window", "ki8_reset_forgets_header_window_bits", "kd10_reset_equals_fresh", "ki8_reset_equals_fresh", "ka2_deflate_copy_alloc_failure", "kd10c_pending_clone_to",
             "kd10c_symbuf_clone_to", "ki8c_window_clone_to", "kd7_gzip_start_stale_gzindex"],
